@@ -173,7 +173,7 @@ func GenCliFamily(w *Writer, r *Rng, t Tier) error {
 	if _, err := os.Stat(CliPath()); err != nil {
 		return fmt.Errorf("CLI binary missing: %v", err)
 	}
-	exprs := []string{"/r/a", "//a", "count(//a)", "/r/a[1]", "//a/@id", "string(/r/b)", "//*", "/nothing", "//a[. = $v]", "//p:a", "/#obj/a", "//a | //b", "//text()", "1 + 1", "//a/ancestor::*", "/html/body/*", "//comment()"}
+	exprs := []string{"/r/a", "//a", "count(//a)", "/r/a[1]", "//a/@id", "string(/r/b)", "//*", "/nothing", "//a[. = $v]", "//p:a", "/#obj/a", "//a | //b", "//text()", "1 + 1", "//a/ancestor::*", "/html/body/*", "//comment()", "$v", "concat('[', $v, ']')", "string-length($v)"}
 	for i := 0; i < n; i++ {
 		cr := r.Fork()
 		root, err := os.MkdirTemp("", "xsel-cli-")
@@ -211,7 +211,7 @@ func GenCliFamily(w *Writer, r *Rng, t Tier) error {
 			args = append(args, "-s", "p=urn:a")
 		}
 		if strings.Contains(xp, "$v") {
-			val := Pick(cr, []string{"one", "two", "a=b"})
+			val := Pick(cr, []string{"one", "two", "a=b", "a=b=c", "=", "x=", "=x"})
 			q.vars["v"] = val
 			args = append(args, "-v", "v="+val)
 		}
@@ -337,8 +337,10 @@ func cliXmlRecords(w *Writer, r *Rng, n int) error {
 		`<r><a>é𝄞 &amp; &lt;</a><a>  </a><a/></r>`,
 		`<r><a>line1
 line2</a></r>`,
+		`<!--prolog--><?xml-stylesheet href="s.css"?><r><a>x</a><!--in--></r><!--epilog--><?end e?>`,
+		`<?pi one?><r><a/></r>`,
 	}
-	exprs := []string{"//a", "/r/a[1]", "/r", "//p:a", "//b", "//a/text()"}
+	exprs := []string{"//a", "/r/a[1]", "/r", "//p:a", "//b", "//a/text()", "/", "//a/ancestor::node()", "/comment()", "/processing-instruction()", "/node()"}
 	for i := 0; i < n; i++ {
 		cr := r.Fork()
 		root, err := os.MkdirTemp("", "xsel-cli-")
@@ -399,7 +401,16 @@ line2</a></r>`,
 			want := subtreeDesc(nodes[k])
 			var got string
 			kids := back.Children()[0].Children()
-			if len(kids) == 1 {
+			if kindOf(nodes[k].Node()) == KRoot {
+				// the record of the root node is the serialisation of ALL its children, in order
+				want = ""
+				for _, c := range nodes[k].Children() {
+					want += subtreeDesc(c)
+				}
+				for _, c := range kids {
+					got += subtreeDesc(c)
+				}
+			} else if len(kids) == 1 {
 				got = subtreeDesc(kids[0])
 			}
 			if got != want {
